@@ -11,13 +11,13 @@ Lemma length_nlen {A} (l : list A) : Z.of_N (nlen l) = Z.of_nat (length l).
 Proof. rewrite nlen_length. lia. Qed.
 
 (* ---------- powers of two, the mask is a modulus ---------- *)
-Definition pow2B (B : Z) : Prop := exists k, 0 <= k <= 14 /\ B = 2 ^ k.
+Definition pow2B (B : Z) : Prop := exists k, 0 <= k <= 15 /\ B = 2 ^ k.
 
-Lemma pow2B_range B : pow2B B -> 1 <= B <= 16384.
+Lemma pow2B_range B : pow2B B -> 1 <= B <= 32768.
 Proof.
   intros (k & Hk & ->). split.
   - pose proof (Z.pow_pos_nonneg 2 k). lia.
-  - change 16384 with (2 ^ 14). apply Z.pow_le_mono_r; lia.
+  - change 32768 with (2 ^ 15). apply Z.pow_le_mono_r; lia.
 Qed.
 
 Lemma land_pow2 B x : pow2B B -> Z.land x (B - 1) = x mod B.
@@ -438,9 +438,7 @@ Proof.
       * unfold bsize. rewrite Hl'. exact Ha.
       * intros j Hj. unfold bsize in *. rewrite Hl' in *. apply Hr. lia.
     + now apply RP_behind.
-  - rewrite (w16_small (bsize b)) by lia.
-    replace (s16 (bsize b)) with (bsize b) by (unfold s16; destruct (Z.ltb_spec (bsize b) 32768); lia).
-    destruct (Z.leb_spec (bsize b) (relpos L p)) as [Hfl|Hin].
+  - destruct (Z.leb_spec (bsize b) (relpos L p)) as [Hfl|Hin].
     + rewrite count_loop_spec by (assumption || unfold bsize; lia).
       destruct (collect_loop_spec b (bsize b) a 0 b []) as (b' & E & Hl' & Hr & _); try assumption; try lia.
       rewrite E. cbn [app].
